@@ -170,7 +170,7 @@ func malformedCodecShapes(c *chk.Ctx) {
 				for _, m := range append(ms, us...) {
 					id := len(muts)
 					muts = append(muts, &mutant{ci: ci, valid: valid, body: m.body, how: m.how, cls: m.cls})
-					ops2 = append(ops2, drv.Op{Op: "raw", Case: id, Call: 1, Pkg: mc.pkg, Verb: "POST", URL: "/api/do",
+					ops2 = append(ops2, drv.Op{Op: "raw", Case: id, Call: 1, Pkg: mc.pkg, Verb: "POST", URL: "/api/do", Framing: mutFraming(id),
 						Headers: [][2]string{{"Content-Type", "application/json"}}, BodyB64: base64.StdEncoding.EncodeToString(m.body),
 						Handler: drv.HandlerCfg{Kind: "ok", RespType: mc.top, RespB64: zero[ci]}})
 				}
@@ -180,7 +180,7 @@ func malformedCodecShapes(c *chk.Ctx) {
 	ev2 := runDrv(c, bin, w.Root, ops2)
 	segs := make([][]string, len(muts))
 	for id := range muts {
-		lines := []string{jsonLine(map[string]any{"event": "Req", "case": id, "req": wire.BareRequest(muts[id].cls)})}
+		lines := []string{jsonLine(map[string]any{"event": "Req", "case": id, "req": wire.BareRequest(muts[id].cls, mutFraming(id))})}
 		evs := ev2[fmt.Sprintf("%d/1", id)]
 		sort.SliceStable(evs, func(i, j int) bool { return evs[i]["seq"].(float64) < evs[j]["seq"].(float64) })
 		if len(evs) == 0 {
@@ -388,4 +388,12 @@ func doubtful(valid []byte) []mutBody {
 	}
 	walk(doc, "$", 1)
 	return out
+}
+
+// mutFraming: every other mutant travels chunked (no announced length)
+func mutFraming(id int) string {
+	if id%2 == 1 {
+		return "chunked"
+	}
+	return "sized"
 }
